@@ -16,6 +16,14 @@ ALLOWED_AXIOMS = {"propext", "Classical.choice", "Quot.sound"}
 FORBIDDEN = re.compile(r"\bsorry\b|\badmit\b|^\s*axiom\s|native_decide|bv_decide|implemented_by|\bunsafe\s|maxHeartbeats\s+0")
 
 
+def _beat():
+    try:
+        import impl
+        impl.heartbeat()
+    except Exception:  # noqa
+        pass
+
+
 def sh(cmd, cwd=None, timeout=3600, env=None):
     p = subprocess.run(cmd, cwd=cwd, stdout=subprocess.PIPE, stderr=subprocess.STDOUT, timeout=timeout,
                        env=env, shell=isinstance(cmd, str))
@@ -46,6 +54,7 @@ class Run:
     # ---------------------------------------------------------------- coverage
     def count(self, case, nontrivial, tags=()):
         self.cov["evaluations"] += 1
+        _beat()
         if nontrivial:
             h = hashlib.sha1(json.dumps(case, sort_keys=True, default=str).encode()).hexdigest()
             if h not in self._distinct:
@@ -57,6 +66,7 @@ class Run:
             self.cov["samples"].append(trim(case))
 
     def tag(self, t, n=1):
+        _beat()
         self.cov["histogram"][t] = self.cov["histogram"].get(t, 0) + n
 
     # ---------------------------------------------------------------- lean
@@ -115,6 +125,13 @@ class Run:
         if self.tier == "thorough" and rc == 0:
             # independent re-check of the compiled proofs
             self.leanchecker(sorted(set(targets)))
+        # from here on the check talks to the implementation: a call that does not return, or allocates without bound,
+        # is aborted and counts as a failure of that call
+        try:
+            import impl
+            impl.watchdog_start()
+        except Exception:  # noqa
+            pass
         return self.proof_ok
 
     def leanchecker(self, mods):
